@@ -127,7 +127,21 @@ def tasks(tier):
         ts.append(('contracts.c13', 'hash_respects_equality', (c1, c2)))
     ts += fc.tasks_c13(tier)
     ts.append(('contracts.c13', 'init_hash', ()))
+    # "the total size limit is divided among the shards": FanoutCache.__init__ (shard directories, forwarded
+    # arguments, a given size_limit divided by the shard count) -- the construction contract of C18
+    ts.append(('contracts.c18', 'fanout_init', ()))
     return ts
+
+
+def post_process(results, tier):
+    out = []
+    for r in results:
+        if r['name'].startswith('C18.'):
+            if 'stored_settings_survive' in r['name']:
+                continue        # persistence of stored settings is C18 (its recorded finding KF-C18-fanout-size-limit-reset)
+            r = Result('C13.init.' + r['name'][4:], r['kind'], r['verdict'], **{k: v for k, v in r.items() if k not in ('name', 'kind', 'verdict')})
+        out.append(r)
+    return out
 
 
 def meta(results, tier):
